@@ -225,3 +225,36 @@ func derivedFromMsg(v ssa.Value) (ssa.Value, string) {
 	}
 	return nil, ""
 }
+
+// uniqueSites: the frozen table of functions that write through a message which may be
+// shared with another holder (a survey the application also sent on another context, a
+// message a device forwards to several sockets, a message queued to several contexts).
+// Each must call MakeUnique() on it, use the result, and do so before the first write
+// (the order is E5's write-before-unique rule).  Confirmed by reading; one line each.
+var uniqueSiteTable = [][4]string{
+	{"protocol/surveyor", "context", "SendMsg", "the survey header is overwritten with the new survey id: a message also sent on another context would go out under the wrong id"},
+	{"protocol/xbus", "socket", "SendMsg", "the source-pipe header of a forwarded message is stripped: other holders of the same message lose it and echo the message to its sender"},
+	{"protocol/sub", "context", "RecvMsg", "the message was queued to every matching context: the application must get a private copy"},
+	{"protocol/xpair1", "pipe", "receiver", "the hop count is written into the header in place"},
+}
+
+func uniqueSites(p *Prog, r *Report, R string, only func(rel string) bool) {
+	q := NewQ(p, r)
+	for _, t := range uniqueSiteTable {
+		if only != nil && !only(t[0]) {
+			continue
+		}
+		f := q.Fn(R, t[0], t[1], t[2])
+		if !f.OK() {
+			continue
+		}
+		mu := f.Ev("call", "mangos.(*Message).MakeUnique")
+		used := len(mu) >= 1
+		for _, e := range mu {
+			if c, ok := e.In.(*ssa.Call); !ok || c.Referrers() == nil || len(*c.Referrers()) == 0 {
+				used = false
+			}
+		}
+		r.Check(used, R, f.Name+"/makes-unique", mu.Pos(p), "MakeUnique() is called and its result used", "the message is written through without MakeUnique(): "+t[3])
+	}
+}
